@@ -15,6 +15,7 @@ import math
 import os
 import random
 import tempfile
+import zlib
 import traceback
 
 import numpy as np
@@ -546,6 +547,10 @@ def gen_progset(rng, fw, data, tvec=None):
         prog.target_pops = rng.sample(cand_pops, rng.randint(1, len(cand_pops)))
         cand_comps = [k for k in targetable if g.comps[k]["type"] == pt]
         prog.target_comps = rng.sample(cand_comps, rng.randint(1, len(cand_comps))) if cand_comps else []
+        special = [k for k, v in g.comps.items() if v["non_targetable"] and v["type"] == pt]
+        if special and prog.target_comps and zlib.crc32(repr((prog.name, sorted(prog.target_comps))).encode()) % 4 == 0:
+            # a program may also reach people in a sink / source / junction compartment (the program book lists such a compartment only when it is in use)
+            prog.target_comps = prog.target_comps + [special[zlib.crc32(prog.name.encode()) % len(special)]]
         mode = rng.choice(["assumption", "times"]) if len(tvec) else "assumption"
         if mode == "assumption":
             prog.spend_data.insert(None, rng.choice([0.0, 1e4, 2.5e5, 1234567.891]))
